@@ -44,8 +44,10 @@ class LazyArray {
 
   LazyObject<_Tp> data_[(_Size > 0 ? _Size : 1)];
 
-  _Tp* get(size_t __n) { return &data_[__n].get(); }
-  const _Tp* get(size_t __n) const { return &data_[__n].get(); }
+  // pointer arithmetic from the first slot: __n may be _Size (end()), which
+  // must not be used for a member call on a slot that does not exist
+  _Tp* get(size_t __n) { return &data_[0].get() + __n; }
+  const _Tp* get(size_t __n) const { return &data_[0].get() + __n; }
 
 public:
   typedef _Tp value_type;
